@@ -66,11 +66,17 @@ def cases(tier, seed):
                     if tier == "quick" and ch not in ("numpy", "dask:2", "dask:3,4,5") and not (kind == "single" and box == (3, 3, 3)):
                         continue
                     out.append({"family": "onehot", "kind": kind, "N": N, "box": list(box), "chunk": ch})
+                    if N >= 5 and ch == "numpy" and tuple(box) == (3, 3, 3):
+                        out.append({"family": "onehot", "kind": kind, "N": N, "box": list(box), "chunk": ch, "auto_chunk": "256B"})
             for s in range(10):
                 for n_set in (1, 2, 3):
                     if tier == "quick" and n_set == 3 and s > 2:
                         continue
                     out.append({"family": "split", "kind": kind, "N": N, "box": [3, 3, 3], "chunk": "numpy", "seed": s, "n_set": n_set})
+                    if N >= 4 and s < 4 and n_set <= 2:
+                        # dask's automatic chunk size made tiny (256 B = two sub-volumes): what a stack beyond 128 MiB meets in production -
+                        # the half stacks are split into several blocks of unequal length
+                        out.append({"family": "split", "kind": kind, "N": N, "box": [3, 3, 3], "chunk": "numpy", "seed": s, "n_set": n_set, "auto_chunk": "256B"})
     # integer tomograms (MRC modes 0, 1, 6): the mean of sub-volumes that share a bright voxel must not wrap around
     for kind in ("single", "batch(2,1)", "group2", "group3", "batch(2,1|1,1)"):
         for N in (2, 3, 5, 6):
@@ -160,6 +166,14 @@ def run_case(case):
     import dask
 
     dask.config.set(scheduler="synchronous")
+    if case.get("auto_chunk"):
+        with dask.config.set({"array.chunk-size": case["auto_chunk"]}):
+            inner = dict(case)
+            inner.pop("auto_chunk")
+            res_ = run_case(inner)
+        res_["outcome"] = res_["outcome"] + "|tiny-auto-chunks"
+        res_["viol"] = [(s_ + "|tiny-auto-chunks", m_ + " (dask array.chunk-size = 256 B)") for s_, m_ in res_["viol"]]
+        return res_
     fam = case["family"]
     if fam == "random":
         return _run_random(case)
